@@ -109,10 +109,10 @@ def atomic_only(prog, chk, rid):
 
 # ----------------------------------------------------------------------------- C09.b
 
-def release_idiom(prog, chk, rid, fams=tuple(FAMILIES)):
+def release_idiom(prog, chk, rid, fams=tuple(FAMILIES), floor=12):
     chk.rule(rid, "DOM: every delete of a shared block and every payload destructor in clear() is control-dependent on "
                   "`Atomic::decrement(x->ref) == 0` evaluated in that condition, itself guarded by the owned test; no decrement "
-                  "result is discarded", floor=12)
+                  "result is discarded", floor=floor)
     for fam in fams:
         d = FAMILIES[fam]
         for f in family_functions(prog, fam):
@@ -161,10 +161,10 @@ def release_idiom(prog, chk, rid, fams=tuple(FAMILIES)):
 
 # ----------------------------------------------------------------------------- C09.c
 
-def share_idiom(prog, chk, rid, fams=tuple(FAMILIES)):
+def share_idiom(prog, chk, rid, fams=tuple(FAMILIES), floor=10):
     chk.rule(rid, "MPT: storing a pre-existing counted block into a handle has Atomic::increment of that block's counter on every "
                   "path through the store (unless the block pointer is null / not owned on that path); overwriting the handle's "
-                  "pointer is preceded on every path by the release test of the old block", floor=10)
+                  "pointer is preceded on every path by the release test of the old block", floor=floor)
     for fam in fams:
         d = FAMILIES[fam]
         ptr = d["ptr"]
@@ -230,9 +230,9 @@ def share_idiom(prog, chk, rid, fams=tuple(FAMILIES)):
 
 # ----------------------------------------------------------------------------- C09.d
 
-def acquire_before_release(prog, chk, rid, fams=tuple(FAMILIES)):
+def acquire_before_release(prog, chk, rid, fams=tuple(FAMILIES), floor=5):
     chk.rule(rid, "ORD: in every assignment operator the increment of the incoming block precedes the release of the outgoing one "
-                  "(or an alias guard dominates both)", floor=5)
+                  "(or an alias guard dominates both)", floor=floor)
     for fam in fams:
         for f in family_functions(prog, fam):
             if f.short != "operator=":
@@ -306,9 +306,9 @@ def handle_rule_of_three(prog, chk, rid, fams=tuple(FAMILIES)):
 
 # ----------------------------------------------------------------------------- C09.g
 
-def clone_into_fresh(prog, chk, rid, fams=("Variant", "Xml::Variant")):
+def clone_into_fresh(prog, chk, rid, fams=("Variant", "Xml::Variant"), floor=10):
     chk.rule(rid, "DOM: every placement-new of a payload targets the block allocated in the same function (the local new block, or "
-                  "`data` only when the allocation into `data` dominates it), never the block currently shared", floor=10)
+                  "`data` only when the allocation into `data` dominates it), never the block currently shared", floor=floor)
     for fam in fams:
         d = FAMILIES[fam]
         for f in family_functions(prog, fam):
@@ -371,10 +371,10 @@ def tag_table(prog, fam):
     return table
 
 
-def exclusive_guard(prog, chk, rid, fams=("String", "Variant", "Xml::Variant")):
+def exclusive_guard(prog, chk, rid, fams=("String", "Variant", "Xml::Variant"), floor=10):
     chk.rule(rid, "FIN: a payload is modified in place / handed out mutable only under valuations with reference count exactly one "
                   "(String) resp. at most one and matching tag (Variant): the dominating guards are evaluated for ref in {0,1,2,3} "
-                  "and every tag", floor=10)
+                  "and every tag", floor=floor)
     for fam in fams:
         d = FAMILIES[fam]
         fs = family_functions(prog, fam)
@@ -445,9 +445,9 @@ def exclusive_guard(prog, chk, rid, fams=("String", "Variant", "Xml::Variant")):
 
 # ----------------------------------------------------------------------------- C07.a TAG
 
-def tag_casts(prog, chk, rid, fams=("Variant", "Xml::Variant")):
+def tag_casts(prog, chk, rid, fams=("Variant", "Xml::Variant"), floor=20):
     chk.rule(rid, "TAG: every cast of the payload area to a payload type is dominated by a test for the matching tag (or happens on "
-                  "the block just allocated for that type); clear() has a case with the matching destructor for every allocated tag", floor=20)
+                  "the block just allocated for that type); clear() has a case with the matching destructor for every allocated tag", floor=floor)
     for fam in fams:
         d = FAMILIES[fam]
         table = tag_table(prog, fam)
